@@ -502,6 +502,9 @@ def sem_unlink(name):
     if s.cur.killed:
         raise SimKilled()
     s.point(label="sem.unlink")
+    w = getattr(s, "world", None)
+    if w is not None:
+        w.tracker_log.append(("UNLINK", name, "semlock", s.cur.proc.label))
     k = s.sem_names.pop(name, None)
     if k is None:
         raise FileNotFoundError(2, "No such file or directory")
